@@ -534,6 +534,10 @@ class ContiguousDataReader(BaseDataReader):
             elif obj.data_type.size is not None:
                 # In last chunk with reduced chunk size
                 current_position += obj.data_type.size * number_values
+            elif number_values == 0:
+                # Truncated chunks with unsized types are not read at all,
+                # so there is no data for any channel in this chunk
+                break
             else:
                 raise Exception("Cannot skip over channel with unsized type in a truncated segment")
 
